@@ -795,6 +795,101 @@ fn main() {
             }
             println!("RESULT enum:zinc-spellings {} alternative spellings decode to the value of the plain spelling", pairs.len());
         }
+        // ---- C20 enumerator: display names over all 256 subsets of the eight display tags, with Str and non-Str values, against an oracle
+        //      written from the precedence order; macro substitution cases; text without `$` unchanged; odd patterns never panic
+        "enum:dis" => {
+            use libhaystack::val::{dict_to_dis, dis_macro, Dict};
+            use std::borrow::Cow;
+            let order = ["dis", "disMacro", "disKey", "name", "def", "tag", "navName", "id"];
+            fn loc<'a>(k: &str) -> Option<Cow<'a, str>> { if k == "key" || k == "pod::key" { Some(Cow::Borrowed("LOC")) } else { None } }
+            // oracle for one macro pattern: $ident, ${ident}, $<key>; ident = a tag name
+            fn is_start(c: char) -> bool { c.is_ascii_lowercase() }
+            fn is_part(c: char) -> bool { c.is_ascii_alphanumeric() || c == '_' }
+            fn tag_text(d: &Dict, name: &str) -> Option<String> { d.get(name).map(|v| match v {
+                Value::Str(s) => s.value.clone(), Value::Ref(r) => r.dis.clone().unwrap_or(r.value.clone()), other => other.to_string() }) }
+            fn expand(p: &str, d: &Dict) -> String {
+                let cs: Vec<char> = p.chars().collect();
+                let mut out = String::new();
+                let mut i = 0;
+                while i < cs.len() {
+                    if cs[i] == '$' && i + 1 < cs.len() {
+                        if is_start(cs[i + 1]) {
+                            let mut j = i + 1; while j < cs.len() && is_part(cs[j]) { j += 1; }
+                            let name: String = cs[i + 1..j].iter().collect();
+                            match tag_text(d, &name) { Some(t) => out.push_str(&t), None => out.extend(cs[i..j].iter()) }
+                            i = j; continue;
+                        }
+                        if cs[i + 1] == '{' && i + 2 < cs.len() && is_start(cs[i + 2]) {
+                            let mut j = i + 2; while j < cs.len() && is_part(cs[j]) { j += 1; }
+                            if j < cs.len() && cs[j] == '}' {
+                                let name: String = cs[i + 2..j].iter().collect();
+                                match tag_text(d, &name) { Some(t) => out.push_str(&t), None => out.extend(cs[i..=j].iter()) }
+                                i = j + 1; continue;
+                            }
+                        }
+                        if cs[i + 1] == '<' {
+                            if let Some(off) = cs[i + 2..].iter().position(|c| *c == '>') {
+                                if off > 0 {
+                                    let key: String = cs[i + 2..i + 2 + off].iter().collect();
+                                    match loc(&key) { Some(t) => out.push_str(&t), None => out.extend(cs[i..=i + 2 + off].iter()) }
+                                    i = i + 3 + off; continue;
+                                }
+                            }
+                        }
+                    }
+                    out.push(cs[i]); i += 1;
+                }
+                out
+            }
+            let mut n = 0;
+            for variant in 0..3 { for mask in 0u32..256 {
+                let mut d = Dict::new();
+                d.insert("site".into(), Value::make_str("Site")); d.insert("n".into(), Value::make_int(7)); d.insert("r".into(), Value::make_ref_with_dis("x", "X name"));
+                for (bit, t) in order.iter().enumerate() {
+                    if mask & (1 << bit) != 0 {
+                        let v = match (variant, *t) {
+                            (_, "disMacro") if variant < 2 => Value::make_str("m $site ${n} $r $<key> $<nokey> $missing ${missing} $x"),
+                            (_, "disKey") if variant == 0 => Value::make_str("key"),
+                            (_, "disKey") if variant == 1 => Value::make_str("nokey"),
+                            (1, "id") => Value::make_ref_with_dis("i", "Id name"),
+                            (2, "id") => Value::make_ref("i"),
+                            (2, _) => Value::make_int(bit as i64),
+                            _ => Value::make_str(&format!("v_{t}")),
+                        };
+                        d.insert((*t).into(), v);
+                    }
+                }
+                let first = order.iter().find(|t| d.get(**t).is_some());
+                let plain = |v: &Value| match v { Value::Str(s) => s.value.clone(), other => other.to_string() };
+                let want = match first {
+                    None => "DEFAULT".to_string(),
+                    Some(t) => { let v = d.get(*t).unwrap(); match (*t, v) {
+                        ("disMacro", Value::Str(s)) => expand(&s.value, &d),
+                        ("disKey", Value::Str(s)) => loc(&s.value).map(|c| c.to_string()).unwrap_or(s.value.clone()),
+                        ("id", Value::Ref(r)) => r.dis.clone().unwrap_or(r.value.clone()),
+                        _ => plain(v) } } };
+                let got = dict_to_dis(&d, &loc, Some(Cow::Borrowed("DEFAULT"))).to_string();
+                n += 1;
+                if got != want {
+                    println!("RESULT enum:dis record={d:?}: display name {got:?}, the precedence order gives {want:?}");
+                    std::process::exit(3);
+                }
+            } }
+            let mut d = Dict::new();
+            d.insert("a".into(), Value::make_str("A")); d.insert("ab".into(), Value::make_str("AB")); d.insert("navName".into(), Value::make_str("Nav"));
+            d.insert("equipRef".into(), Value::make_ref_with_dis("e", "Equip 1")); d.insert("num".into(), Value::make_number_unit(5.0, libhaystack::units::get_unit_or_default("kg")));
+            for p in ["", "plain text", "no dollars: 100% (a) {b} <c>", "$a", "$ab", "${a}", "${ab}", "x$a.y", "$a$ab", "$equipRef $navName", "${equipRef}-${num}", "$<key>", "$<pod::key>", "$<nokey>",
+                      "$", "$$", "${", "${}", "$<", "$<>", "$1", "\u{e9}$\u{e9}", "${a", "$<a", "$A", "${A}", "$a_b", "$missing", "cost: 5$", "$ $a", "$\u{1F600}", "a$<key>b$<key>"] {
+                let got = dis_macro(p, |k| d.get(k).map(Cow::Borrowed), loc).to_string();
+                let want = expand(p, &d);
+                n += 1;
+                if got != want || (!p.contains('$') && got != p) {
+                    println!("RESULT enum:dis pattern={p:?} over {d:?}: substitution gives {got:?}, the macro rules give {want:?}");
+                    std::process::exit(3);
+                }
+            }
+            println!("RESULT enum:dis {n} display names and macro substitutions agree with the precedence order and the macro rules");
+        }
         // ---- C09 enumerator (evaluation half): `id *== @ref` over resolvers whose refs form chains and cycles of several shapes must
         //      terminate with the right answer; a run that does not come back is reported as a hang by the caller's watchdog
         "enum:wildcard-cycles" => {
